@@ -167,7 +167,7 @@ var pool = []pval{
 	// MarshalJSON / MarshalText accept, raw JSON messages that are not JSON, and such values nested
 	{"time-far", func(*env) ugo.Object { return &ugotime.Time{Value: farTime} }},
 	{"time-year10000", func(*env) ugo.Object { return &ugotime.Time{Value: gotime.Date(10000, 1, 1, 0, 0, 0, 0, gotime.UTC)} }},
-	{"raw-valid", func(*env) ugo.Object { return &ugojson.RawMessage{Value: []byte(`{"a":1}`)} }},
+	{"b-cut-rune", func(*env) ugo.Object { return ugo.Bytes("\"\xe2\x80") }}, // ends in the middle of a 3-byte character
 	{"raw-invalid", func(*env) ugo.Object { return &ugojson.RawMessage{Value: []byte(`{`)} }},
 	{"a-raw-invalid", func(*env) ugo.Object {
 		return ugo.Array{ugo.Int(1), ugo.Map{"k": &ugojson.RawMessage{Value: []byte(`x`)}}, &ugotime.Time{Value: farTime}}
